@@ -53,9 +53,11 @@ def metric_table():
             except Exception:
                 rejected.append(vname + ':rejected-by-validator')
                 continue
+            # the input kind is derived from river's own class hierarchy (not from what the library under test decided):
+            # probability metrics that are not binary take a dict of label probabilities
             if isinstance(m, RegressionMetric):
                 kind = 'reg_log' if name == 'RMSLE' else ('reg_pct' if name in ('MAPE', 'SMAPE') else 'reg')
-            elif w._dict_input_metric:
+            elif not isinstance(m, BinaryMetric) and getattr(m, 'requires_labels', True) is False:
                 kind = 'dict'
             elif isinstance(m, BinaryMetric):
                 kind = 'bin_label' if getattr(m, 'requires_labels', True) else 'bin_proba'
